@@ -18,6 +18,7 @@ pub mod c11;
 pub mod c12;
 pub mod c13;
 pub mod c17;
+pub mod c18;
 pub mod c14;
 pub mod c15;
 pub mod c16;
@@ -246,6 +247,7 @@ pub fn run(id: &str, tier: Tier, rest: &[String]) -> i32 {
         "C12" => c12::run(tier, part),
         "C13" => c13::run(tier, part),
         "C17" => c17::run(tier, part),
+        "C18" => c18::run(tier, part),
         "C14" => c14::run(tier, part),
         "C15" => c15::run(tier, part),
         "C16" => c16::run(tier, part),
@@ -275,6 +277,7 @@ pub fn replay(file: &str) -> i32 {
         "C06" => c06::replay(tier, &doc["replay"]),
         "C07" => c07::replay(tier, &doc["replay"]),
         "C17" => c17::replay(tier, &doc["replay"]),
+        "C18" => c18::replay(&doc["replay"]),
         "C10" => c10::replay(tier, &doc["replay"]),
         "C11" => c11::replay(&doc["replay"]),
         "C12" => c12::replay(&doc["replay"]),
